@@ -463,7 +463,8 @@ func sameConstant(old, val Object) bool {
 		return math.Float64bits(o.Value) == math.Float64bits(v.Value) || (o.Value != o.Value && v.Value != v.Value)
 	case Function:
 		v := val.(Function)
-		return o.CacheKey == v.CacheKey && o.Env == v.Env
+		sameName := (o.Name == nil) == (v.Name == nil) && (o.Name == nil || o.Name.Literal() == v.Name.Literal())
+		return sameName && o.CacheKey == v.CacheKey && o.Env == v.Env // (the text doesn't include the name)
 	case Array:
 		oe, ve := o.Elements(), val.(Array).Elements()
 		if len(oe) != len(ve) {
